@@ -61,9 +61,15 @@ fn key_variations(k: &str) -> Vec<String> {
         format!("r#{}", k),
         format!("_{}", k),
     ];
-    if k.len() > 1 {
-        v.push(k[..k.len() - 1].to_string());
-        v.push(k[1..].to_string());
+    let cs: Vec<char> = k.chars().collect();
+    if cs.len() > 1 {
+        v.push(cs[..cs.len() - 1].iter().collect());
+        v.push(cs[1..].iter().collect());
+    }
+    if !k.is_ascii() {
+        // same number of bytes / of characters as a non-ASCII key
+        v.push("x".repeat(k.len()));
+        v.push("x".repeat(cs.len()));
     }
     v
 }
